@@ -33,6 +33,7 @@ func (c *Clause) Expr() (*SExpr, error) {
 type LoopSpec struct {
 	Ordinal    int
 	Invariants []*Clause
+	Transitions []*Clause // two-state: prev(e) is e at the start of the iteration; checked at every back edge
 	Decreases  *Clause
 	Modifies   []*Clause
 	Line       int
@@ -138,7 +139,7 @@ func fullKey(pkgPath, key string) string {
 var clauseKeywords = map[string]bool{
 	"func": true, "spec": true, "lemma": true, "props": true, "requires": true, "ensures": true,
 	"modifies": true, "loop": true, "invariant": true, "decreases": true, "pure": true, "trusted": true,
-	"maypanic": true, "cover": true, "guardcall": true, "ghost": true, "ghostset": true, "typeinv": true, "opt": true, "noverify": true, "package": true, "rec": true, "constglobal": true, "sweep": true,
+	"maypanic": true, "cover": true, "guardcall": true, "ghost": true, "ghostset": true, "typeinv": true, "opt": true, "noverify": true, "package": true, "rec": true, "constglobal": true, "sweep": true, "transition": true,
 }
 
 // ParseFile reads one contract file. pkgPath is the import path the file belongs to
@@ -321,6 +322,11 @@ func (cs *ContractSet) ParseFile(file, pkgPath string) error {
 					return fmt.Errorf("%s:%d: invariant outside loop", file, ln)
 				}
 				curLoop.Invariants = append(curLoop.Invariants, mk(rest))
+			case "transition":
+				if curLoop == nil {
+					return fmt.Errorf("%s:%d: transition outside loop", file, ln)
+				}
+				curLoop.Transitions = append(curLoop.Transitions, mk(rest))
 			case "decreases":
 				if curLoop == nil {
 					return fmt.Errorf("%s:%d: decreases outside loop", file, ln)
